@@ -24,6 +24,10 @@ pub struct Scn {
     /// before these frame indices and the same instance is started again
     #[serde(default)]
     pub boundaries: Vec<usize>,
+    /// fault: the wall clock steps (suspend/resume, NTP) at these simulated times (ns) by this many ms; the
+    /// monotonic clock, which ages the table entries, does not. Connections replayed alone meet the same steps.
+    #[serde(default)]
+    pub wall_jumps: Vec<(u64, i64)>,
 }
 
 pub struct C07;
@@ -38,7 +42,12 @@ pub fn kinds_for(k: Kind, r: &mut Rng) -> ConnKind {
 }
 
 fn run_trace(cfg: &SutCfg, trace: &[Timed], via_loop: bool, boundaries: &[usize]) -> Result<Vec<sut::PktOut>, Violation> {
+    run_trace_jumps(cfg, trace, via_loop, boundaries, &[])
+}
+
+fn run_trace_jumps(cfg: &SutCfg, trace: &[Timed], via_loop: bool, boundaries: &[usize], jumps: &[(u64, i64)]) -> Result<Vec<sut::PktOut>, Violation> {
     clock::arm(1_700_000_000_000);
+    sut::set_wall_jumps(jumps.to_vec());
     #[cfg(not(huginn_net_verif_sched))]
     let r = if via_loop { sut::run_loop_breaks(cfg, trace, boundaries) } else { sut::run_deliver(cfg, trace) };
     #[cfg(huginn_net_verif_sched)]
@@ -119,7 +128,7 @@ impl Prop for C07 {
                     }
                 }
             }
-            return Scn { kind, cap: 2 * n + 16, conns, order, via_loop: false, boundaries: vec![] };
+            return Scn { kind, cap: 2 * n + 16, conns, order, via_loop: false, boundaries: vec![], wall_jumps: vec![] };
         }
         // staggered expiry under exact capacity (TCP and unified analyzers, one run in 150): m connections whose
         // timestamp references are taken 100 s apart, a tracker of m-1 entries; the first connection speaks again
@@ -160,7 +169,7 @@ impl Prop for C07 {
             }
             events.sort();
             let order: Vec<usize> = events.iter().map(|e| e.1).collect();
-            return Scn { kind, cap: m - 1, conns, order, via_loop: false, boundaries: vec![] };
+            return Scn { kind, cap: m - 1, conns, order, via_loop: false, boundaries: vec![], wall_jumps: vec![] };
         }
         let n = r.urange(2, 8);
         let v6 = r.chance(1, 5);
@@ -272,13 +281,23 @@ impl Prop for C07 {
             pairs.insert(if a <= b { (a, b) } else { (b, a) });
         }
         let cap = if kind == Kind::Http && r.chance(1, 4) { pairs.len() } else { 2 * conns.len() + 4 + r.usize_below(50) };
-        Scn { kind, cap, conns, order, via_loop, boundaries }
+        // fault, one TCP / unified scenario in six: one or two steps of the wall clock somewhere inside the trace
+        let wall_jumps = if matches!(kind, Kind::Tcp | Kind::Unified) && r.chance(1, 6) {
+            let tmax = conn::to_trace(&conns, &order).last().map(|p| p.t).unwrap_or(0).max(1);
+            (0..r.urange(1, 2)).map(|_| (r.below(tmax), *r.pick(&[900_000i64, 3_600_000, 86_400_000, 1 << 32, (1 << 32) + 1000, -1_200_000, -30_000]))).collect()
+        } else {
+            vec![]
+        };
+        Scn { kind, cap, conns, order, via_loop, boundaries, wall_jumps }
     }
 
     fn run(s: &Scn, st: &mut RunStats) -> Result<(), Violation> {
         let cfg = SutCfg::new(s.kind, s.cap);
         let trace = conn::to_trace(&s.conns, &s.order);
-        let outs = run_trace(&cfg, &trace, s.via_loop, &s.boundaries)?;
+        let outs = run_trace_jumps(&cfg, &trace, s.via_loop, &s.boundaries, &s.wall_jumps)?;
+        for j in &s.wall_jumps {
+            st.fault(if j.1 > 0 { "clock_jump_forward" } else { "clock_jump_backward" });
+        }
         if s.via_loop && !s.boundaries.is_empty() {
             st.fault("capture_source_ends_and_restarts");
         }
@@ -310,7 +329,7 @@ impl Prop for C07 {
             if iso.is_empty() {
                 continue;
             }
-            let iso_out = run_trace(&cfg, &iso, false, &[])?;
+            let iso_out = run_trace_jumps(&cfg, &iso, false, &[], &s.wall_jumps)?;
             st.packets += iso.len() as u64;
             let mixed: Vec<&sut::PktOut> = trace.iter().zip(outs.iter()).filter(|(p, _)| p.conn == ci).map(|(_, o)| o).collect();
             let mut any = false;
@@ -380,6 +399,11 @@ impl Prop for C07 {
 
     fn shrink(s: &Scn) -> Vec<Scn> {
         let mut out = vec![];
+        if !s.wall_jumps.is_empty() {
+            let mut x = s.clone();
+            x.wall_jumps.clear();
+            out.push(x);
+        }
         let drop_set = |s: &Scn, gone: &dyn Fn(usize) -> bool| -> Scn {
             let mut x = s.clone();
             let mut map = vec![usize::MAX; s.conns.len()];
